@@ -921,7 +921,11 @@ func sgCheckAnswer(r *sgRun, ps *sgPeerState, rec *sgRec, ans, off *vfSDP, who s
 			if ac == "" {
 				ac = sgStaticPT[pt]
 			}
-			if oc != "" && ac != "" && oc != ac {
+			if oc != "" && ac != "" && oc != ac && g.remotePTs[a.Kind+"|"+pt+"|"+am2[pt]] {
+				// the answer's meaning of this number is what an earlier remote description gave it: the
+				// per-kind negotiated list again (open C16 finding), here with a number the new offer reuses
+				r.viol("C16", "answer-keeps-payload-type-mapping-from-an-earlier-remote-description"+origin, fmt.Sprintf("%s: section %d (mid %q): payload type %s is %s in the offer being answered, %s in the answer — which is what an earlier remote description called it", who, i, om, pt, oc, ac))
+			} else if oc != "" && ac != "" && oc != ac {
 				r.viol("C16", "answer-payload-type-maps-to-different-codec"+origin, fmt.Sprintf("%s: section %d (mid %q): payload type %s is %s in the offer, %s in the answer", who, i, om, pt, oc, ac))
 			}
 		}
